@@ -77,6 +77,19 @@ def gen(rng, depth):
     return [gen(rng, depth - 1), (" ", "ws"), ("[", "open"), gen(rng, depth - 2), ("\n\n", "sep"), gen(rng, depth - 2), ("]", "close")]
 
 
+def with_line_breaks(node, rng, p=0.12):
+    """some of the plain spaces become single line breaks (a single newline is whitespace, not a separator)"""
+    out = []
+    for part in node:
+        if isinstance(part, list):
+            out.append(with_line_breaks(part, rng, p))
+        elif part[1] in ("ws", "lsep") and part[0] == " " and rng.random() < p:
+            out.append(("\n", part[1]))
+        else:
+            out.append(part)
+    return out
+
+
 def text(node):
     return "".join(text(p) if isinstance(p, list) else p[0] for p in node)
 
@@ -117,6 +130,9 @@ def rewrites(node, rng):
                 out.append(("parens", replace_at(node, path, [[("(", "open"), p, (")", "close")]])))
             continue
         t, k = p
+        if k in ("ws", "lsep") and "\n" in t:
+            out.append(("trailing_ws_line", replace_at(node, path, [(rng.choice([" ", "\t", "  \t"]) + t, k)])))
+            out.append(("indent_next_line", replace_at(node, path, [(t + rng.choice([" ", "\t", "    "]), k)])))
         if k in ("ws", "lsep"):
             out.append(("widen", replace_at(node, path, [(rng.choice(["  ", " \t", "\t", "   "]), k)])))
             out.append(("annotation", replace_at(node, path, [(" @note ", k)])))
@@ -264,7 +280,7 @@ def run(tier, seed):
     broken = bool(v.tie_failures)
     nprog = 6000 if (tier == "thorough" or broken) else 700
     if exe and xexe:
-        progs = [gen(rng, rng.randint(1, 4)) for _ in range(nprog)]
+        progs = [with_line_breaks(gen(rng, rng.randint(1, 4)), rng) if i % 3 == 0 else gen(rng, rng.randint(1, 4)) for i in range(nprog)]
         variants = []   # (prog index, rewrite name, text)
         for pi, pcs in enumerate(progs):
             for name, new in rewrites(pcs, rng):
